@@ -22,7 +22,7 @@ RULE = ('programs from vlib.writerprog.gen_program; non-trivial = produced segme
         'per-segment (object kind, type code, count) signature')
 ASSUMPTIONS = ['the raw data index length field counts itself: 20 for fixed-size types, 28 for strings (NI TDMS file format description)']
 REQUIRED = ['programs', 'segments_parsed', 'index_files_compared', 'write_trace_segments', 'string_indexes_seen', 'parents_checked']
-N = {'quick': 8000, 'thorough': 100000}
+N = {'quick': 8000, 'thorough': 1000000}
 
 
 def gen_cases(tier, seed):
